@@ -570,7 +570,7 @@ class Tracer:
         if event != "call" or not self.classes:
             return
         code = frame.f_code
-        if code.co_argcount < 2 or not code.co_filename.startswith(UFL_DIR):
+        if code.co_argcount < 2 or code.co_varnames[0] != "self" or not code.co_filename.startswith(UFL_DIR):
             return
         loc = frame.f_locals
         vn = code.co_varnames
@@ -621,8 +621,22 @@ def result_canon(r):
     return one(r)
 
 
+def reset_counters(base):
+    """Give the global object counters a fixed start for this step, so that what a step creates (indices,
+    labels, ...) does not depend on how far earlier steps got before they raised."""
+    import itertools
+
+    from ufl.classes import BaseFormOperator, Coefficient, Constant, Index, Label, Matrix
+
+    for c in (Index, Coefficient, Constant, Label, Matrix, BaseFormOperator):
+        c._counter = itertools.count(base)
+
+
 def do_step(st, env):
     op = st["op"]
+    if op != "R":
+        env.nstep += 1
+        reset_counters(10000 + 1000 * env.nstep)
     if op == "R":
         try:
             cls = register(st["kind"], env)
@@ -680,6 +694,7 @@ def main(argv):
     steps = json.loads(sys.stdin.read() if argv[0] == "-" else argv[0])
     env = build_world()
     env.base_ntypes = ufl.classes.Expr._ufl_num_typecodes_
+    env.nstep = 0
     outs = []
     for st in steps:
         outs.append(do_step(st, env))
